@@ -58,6 +58,9 @@ static inline void vfh_put(std::ostream& out, long x) { Z t(x); vfstub_mpz_out(o
 #define H_HARGS 20
 // flat arrays only (CBMC 6.11 mis-handles a store through &tab[e].v[0] into an array of structs with an inner array when e
 // is not a literal: the stored value reads back as 0 - seen as a spurious counterexample that did not replay natively)
+// Fiat-Shamir unpredictability: while vfh_forbid_on is set, the digest of a not yet queried input differs from vfh_forbid
+// (the challenge value the adversary already committed to in the edited transcript); probability 2^-|digest| otherwise.
+static bool vfh_forbid_on = false; static long vfh_forbid = 0;
 static unsigned vfh_hcnt[H_HMAX]; static long vfh_hkey[H_HMAX * H_HARGS]; static unsigned long vfh_hout[H_HMAX]; static unsigned vfh_hn = 0;
 static void vfh_digest(mpz_ptr r, unsigned n, const long *vals) {
   vf_assume(n <= H_HARGS);
@@ -70,6 +73,7 @@ static void vfh_digest(mpz_ptr r, unsigned n, const long *vals) {
   }
   vf_assume(vfh_hn < H_HMAX);
   unsigned long o = vf_nondet_below(1UL << H_DBITS);
+  if (vfh_forbid_on) vf_assume((long)o != vfh_forbid);
 #ifdef H_COLLISION_FREE
   for (unsigned e = 0; e < H_HMAX; ++e) { if (e >= vfh_hn) break; vf_assume(vfh_hout[e] != o); }
 #endif
